@@ -1,6 +1,9 @@
 """C02 Two-party protocol: both parties obtain f(x, y)."""
 import hashlib
+import json
+import os
 import re
+import sys
 
 import vlib
 
@@ -13,6 +16,14 @@ THEOREMS = [
     "Mpc.idealOt_spec",
     "Mpc.splitNat_packLE",
     "Mpc.C01_decode",
+    # inputs as the API takes them: integers of any sign and magnitude (Model/Proto2Int.lean)
+    "Mpc.C02_both_get_f_int",
+    "Mpc.C02_input_bits_twos_complement",
+    "Mpc.C02_session_depends_on_residues",
+    "Mpc.C02_packed_argument_faithful",
+    "Mpc.C02_abs_words_agree_nonneg",
+    "Mpc.C02_abs_words_differ_witness",
+    "Mpc.C02_abs_words_session_wrong",
 ]
 
 # The message grammar the model assumes (Model/Proto2.lean), as the ordered
@@ -34,6 +45,28 @@ MSG_METHODS = ["SendData", "SendUint32", "SendLabel", "SendString", "SendByte", 
                "InitReceiver", "Send", "Receive"]
 
 
+def replay_exact(ctx):
+    """`bin/check C02 --replay F`: when F holds one repr-mode case (a session with its circuit, OT and the two parties'
+    inputs as texts / integers), derive exactly that case again, check that its op line is the recorded one and run it
+    on the real code, before the seeded run that regenerates it among the others."""
+    if "--replay" not in sys.argv:
+        return
+    try:
+        rp = sys.argv[sys.argv.index("--replay") + 1]
+        rp = rp if os.path.isabs(rp) else os.path.join(vlib.VERIF, rp)
+        f = json.load(open(rp)).get("failure") or {}
+    except Exception:
+        return
+    if not (f.get("replay") or {}).get("mode") == "repr":
+        return
+    rc, log = vlib.sh([ctx.hx, "replay", rp], env=vlib.GOENV, timeout=600)
+    print("replayed case %s of %s (%s):\n%s" % (f.get("case"), os.path.basename(rp), f.get("sig"), vlib.indent(log[-2500:])))
+    if rc == 1:
+        g = dict(f)
+        g["found_by"] = "exact replay of " + os.path.basename(rp)
+        ctx.fails.append(g)
+
+
 def run(ctx):
     ctx.prove("MpcVerif.Props.C02", THEOREMS)
     # composition with the connection-layer theorem of C11 (transport fragmentation, writer schedule)
@@ -41,7 +74,7 @@ def run(ctx):
     # 64 KiB write buffer / 1 MiB read window), every writer schedule, every read fragmentation of both directions
     ctx.prove("MpcVerif.Props.C02Conn", ["Mpc.C02_messages_over_conn", "Mpc.Msg.ofVal_toVal", "Mpc.C11_conn_roundtrip",
                                          "Mpc.C02_flight_over_conn", "Mpc.C02_both_get_f_over_conn",
-                                         "Mpc.C02_result_independent_of_transport"])
+                                         "Mpc.C02_result_independent_of_transport", "Mpc.C02_both_get_f_int_over_conn"])
     if ctx.tier == "thorough":
         ctx.leanchecker("MpcVerif.Props.C02")
     ctx.build_drv()
@@ -53,13 +86,21 @@ def run(ctx):
              ctx.callseq("circuit", "Garbler", ["Release"]), [])
     quick = ctx.tier == "quick"
     if ctx.build_hx():
-        plan = [("ideal", 150 if quick else 3000), ("real", 35 if quick else 400), ("compiled", 36 if quick else 450),
+        replay_exact(ctx)
+        plan = [("repr", 96 if quick else 1600), ("ideal", 150 if quick else 3000), ("real", 35 if quick else 400), ("compiled", 36 if quick else 450),
                 ("shared", 6 if quick else 60), ("conn", 64 if quick else 420)]
         for mode, n in plan:
             ops, out, meta = ctx.run_hx(mode, n, timeout=1500)
             ctx.absorb_meta(meta, prefix=mode + "_")
+            if mode == "repr":
+                # headline = the smallest failing session (stable: ties keep generation order)
+                ctx.fails.sort(key=lambda f: len(str(f.get("op", ""))))
             what = {"ideal": "both transcripts byte-exact + results", "real": "results with RSA/CO/COT/COT-malicious",
                     "compiled": "compiled MPCL programs incl. struct/array arguments, results",
+                    "repr": "inputs as the API produces them: IOArg.Parse of decimal / signed / 0x / 0b / 0o texts for int, uint, "
+                            "bool, struct and array arguments and *big.Int values of any sign and magnitude passed directly, "
+                            "both parties, every OT, hand-made / compiled / overlapping sessions; op lines carry the signed "
+                            "integers per member, the model encodes them with big.Int.Bit semantics; ideal OT: transcripts",
                     "shared": "24 overlapping sessions per round on ONE shared circuit value, transcripts + results",
                     "conn": "byte volumes across the 64 KiB / 1 MiB Conn buffers x every OT over the fragmenting, delaying "
                             "transport; stream digests, transport read pattern and results vs the session-over-Conn model"
@@ -71,6 +112,22 @@ def run(ctx):
         ctx.oblige("generator reached evaluator inputs beyond one OT-extension chunk (> 512 bits, not byte aligned) with real OT",
                    c.get("real_evaluator_input_over_512_bits_not_byte_aligned", 0) > 0,
                    "counters: %s" % {k: v for k, v in c.items() if "512" in k})
+        # input representations: the classes must actually have been generated
+        for side in ("garbler", "evaluator"):
+            for otn in ("ideal", "co", "cot", "cotm"):
+                ctx.oblige("generator: a NEGATIVE *big.Int as the %s's input in a %s-OT session" % (side, otn),
+                           c.get("repr_repr_%s_negative_big_int_ot_%s" % (side, otn), 0) > 0,
+                           "counters: %s" % {k: v for k, v in c.items() if "negative" in k})
+            for kind in ("random", "parity", "compiled", "shared"):
+                ctx.oblige("generator: a NEGATIVE *big.Int as the %s's input in a session of class %s" % (side, kind),
+                           c.get("repr_repr_%s_negative_big_int_kind_%s" % (side, kind), 0) > 0,
+                           "counters: %s" % {k: v for k, v in c.items() if "negative" in k})
+            ctx.oblige("generator: %s inputs that are zero, wider than the declared argument, negative on an argument of more "
+                       "than 64 bits, given as text and given directly, for int / uint / struct / array arguments" % side,
+                       all(c.get("repr_repr_%s_%s" % (side, k), 0) > 0 for k in
+                           ("zero", "magnitude_wider_than_argument", "negative_argument_over_64_bits", "form_text",
+                            "form_direct", "arg_int", "arg_uint", "arg_struct", "arg_array")),
+                       "counters: %s" % {k: v for k, v in c.items() if k.startswith("repr_repr_" + side)})
         # the size / schedule classes the quantifier names must actually have been generated
         for otn in ("ideal", "co", "cot", "cotm", "rsa"):
             ctx.oblige("generator: a %s-OT session moved more than 1 MiB (the Conn read buffer) to the evaluator" % otn,
@@ -84,12 +141,18 @@ def run(ctx):
                    c.get("conn_sched_single_byte_prefix", 0) > 0, "counters: %s" % c)
         if ctx.widen:
             for s in range(ctx.seed + 7000, ctx.seed + 7004):
-                for mode, n in (("ideal", 1500), ("real", 120), ("conn", 64)):
+                for mode, n in (("repr", 800), ("ideal", 1500), ("real", 120), ("conn", 64)):
                     ops, out, meta = ctx.run_hx(mode, n, seed=s, tag="-widen", timeout=1500)
                     ctx.absorb_meta(meta, prefix="widen_")
                 if ctx.fails:
                     break
-    ctx.coverage["rule"] = ("random well-formed 2-party circuits (argument widths 1..70, 1..4 outputs of random widths incl. "
+    ctx.coverage["rule"] = ("repr mode: per party and flattened member a value class (0, in range, -1, negative in the signed "
+                            "range, -2^(w-1), 2^(w-1)-1, 2^w-1, +-2^w, positive / negative wider than the argument, magnitudes "
+                            "at machine-word boundaries, small negative) written as decimal / +-0x / 0b / 0o text through "
+                            "IOArg.Parse or passed directly as *big.Int, on int / uint / bool / struct / array arguments of "
+                            "random, parity (every input bit reaches an output; evaluator argument up to several machine "
+                            "words) and compiled circuits and overlapping sessions, with ideal / CO / COT / COT-malicious / RSA; "
+                            "other modes: random well-formed 2-party circuits (argument widths 1..70, 1..4 outputs of random widths incl. "
                             "1-bit), random inputs, seeded read fragmentation on both directions; conn mode: classes small / "
                             "tables 70..400 KiB / tables 1.1..2.5 MiB / garbler argument > 4096 bits / evaluator argument > 4096 "
                             "bits, each with ideal, CO, COT, COT-malicious (RSA: tables; wide arguments in thorough), seeded "
@@ -102,6 +165,11 @@ def run(ctx):
         "AES is an arbitrary key-derived function in the theorem",
     ]
     return ctx.finish(
+        "Theorem C02_both_get_f_int: for every WF 2-party circuit and EVERY pair of integer inputs (any sign, any magnitude, "
+        "per flattened member of the declared width) both model runs return Circuit.Compute of those integers; "
+        "C02_input_bits_twos_complement: the wire bits of (w, v) are the digits of v mod 2^w; C02_packed_argument_faithful "
+        "(IOArg.Parse's struct packing); witnesses C02_abs_words_*: the words of |v| agree with Bit(i) exactly on v >= 0. Tie "
+        "(repr mode): op lines carry the signed integers, real sessions take them from IOArg.Parse texts or directly. "
         "Theorem C02_both_get_f: for every WF 2-party circuit, inputs, key derivation, offset, label randomness and every OT "
         "satisfying OtSpec, both model runs return ok(split(plainEval(x++y))), no error branch. Tie: real "
         "circuit.Garbler/Evaluator over a recording fragmenting transport; with an out-of-band ideal OT the complete byte "
